@@ -270,5 +270,8 @@ func (c *tcpConnectionActor) handshake() (err error) {
 		}
 	}
 
-	return nil
+	// 握手期间设置的 10 秒读写期限只属于握手本身，必须在握手完成后清除：
+	// 否则连接建立 10 秒后，任何一次读写都会因“超时”失败，健康且繁忙的连接被双方拆除并重新建立，
+	// 此间已成功写入套接字但对端尚未读取的消息会无声丢失
+	return c.conn.SetDeadline(time.Time{})
 }
